@@ -28,6 +28,7 @@ from __future__ import annotations
 
 import asyncio
 import contextvars
+import inspect
 import itertools
 import logging
 import random
@@ -503,7 +504,32 @@ def mimic_checks(R: Recorder) -> None:
         """annotations that cannot be resolved where the function is decorated (a name imported under TYPE_CHECKING only, its own class)"""
         return node
 
-    kinds: list[tuple[str, Any]] = [("forward-annotated", forward_annotated), ("builtin-sorted", sorted), ("builtin-divmod", divmod), ("bound-builtin", [3, 1, 2].index), ("slots-object", SlotsCallable()), ("plain-object", PlainCallable()),
+    class Point:
+        """a plain class: calling it is a synchronous call like any other (it builds an instance)"""
+
+        def __init__(self, x: int) -> None:
+            if x < 0:
+                raise ValueError("negative")
+            self.x = x
+
+        def __eq__(self, other: object) -> bool:
+            return type(other) is type(self) and vars(other) == vars(self)
+
+        __hash__ = None  # type: ignore[assignment]
+
+    class Job(Point):
+        """instances are callable (synchronously)"""
+
+        def __call__(self, y: int) -> int:
+            return self.x + y
+
+    class AsyncJob(Point):
+        """instances are awaitable-returning callables; the class itself is still a synchronous factory"""
+
+        async def __call__(self, y: int) -> int:
+            return self.x + y
+
+    kinds: list[tuple[str, Any]] = [("user-class", Point), ("class-of-callables", Job), ("class-of-async-callables", AsyncJob), ("forward-annotated", forward_annotated), ("builtin-sorted", sorted), ("builtin-divmod", divmod), ("bound-builtin", [3, 1, 2].index), ("slots-object", SlotsCallable()), ("plain-object", PlainCallable()),
                                     ("partial", functools.partial(sync_fn, 1)), ("lambda", lambda a: a), ("bound-method", PlainCallable().method), ("class", int)]
     sync_decos: list[tuple[str, Any]] = [("asynchronous", asynchronous), ("asynchronous()", lambda f: asynchronous()(f)), ("wrap_async", wrap_async), ("cache", cache), ("cache(limit)", lambda f: cache(limit=2)(f)),
                                          ("retry", retry), ("retry(limit)", lambda f: retry(limit=1)(f))]
@@ -522,6 +548,36 @@ def mimic_checks(R: Recorder) -> None:
         R.case({"mimic": label}, nontrivial=True)
         R.count("mimic_over_uncommon_callables")
         R.monitor("mimic", not bad, where={"kind": "metadata-lost", "deco": dlabel.split("(")[0], "attr": bad[0] if bad else None, "callable": klabel}, detail=f"{label}: {facts}", case={"mimic": label})
+    # ... and calling through the wrapper gives what calling the callable gives: a coroutine first, the callable's result / exception at the await
+    battery: list[tuple[str, Any, tuple[Any, ...]]] = [("user-class", Point, (3,)), ("user-class-raising", Point, (-1,)), ("class-of-callables", Job, (4,)), ("class-of-async-callables", AsyncJob, (5,)), ("class-of-async-callables-raising", AsyncJob, (-5,)),
+                                                       ("builtin-divmod", divmod, (7, 2)), ("bound-builtin", [3, 1, 2].index, (1,)), ("plain-object", PlainCallable(), (6,)), ("partial", functools.partial(sync_fn, 1), (2,)), ("class", int, ("12",)),
+                                                       ("bound-method", PlainCallable().method, (8,))]
+
+    async def call_battery() -> None:
+        for (dlabel, deco), (klabel, fn, args) in itertools.product(sync_decos[:3], battery):
+            label = f"{dlabel} of {klabel} called"
+            try:
+                ref: tuple[str, Any] = ("value", fn(*args))
+            except Exception as exc:  # noqa: BLE001
+                ref = ("raise", type(exc))
+            detail = ""
+            try:
+                w = deco(fn)
+                pending = w(*args)
+                is_coro = asyncio.iscoroutine(pending)
+                try:
+                    got: tuple[str, Any] = ("value", await pending) if inspect.isawaitable(pending) else ("not-awaitable", pending)
+                except Exception as exc:  # noqa: BLE001
+                    got = ("raise", type(exc))
+                ok = is_coro and got[0] == ref[0] and (got[1] == ref[1] if ref[0] == "value" else got[1] is ref[1]) and (ref[0] != "value" or type(got[1]) is type(ref[1]))
+                detail = f"calling the wrapper gave {'a coroutine' if is_coro else repr(pending)}; awaited: {got!r}; the callable itself gives {ref!r}"
+            except BaseException as exc:  # noqa: BLE001
+                ok, detail = False, f"decorating / calling raised {exc!r} (the callable itself gives {ref!r})"
+            R.case({"mimic": label}, nontrivial=True)
+            R.count("calls_through_wrapped_uncommon_callables")
+            R.monitor("transparent", ok, where={"kind": "uncommon-callable-call-differs", "deco": dlabel.split("(")[0], "callable": klabel}, detail=f"{label}: {detail}", case={"mimic": label})
+
+    asyncio.run(call_battery())
     # bound methods (descriptor path)
     for label, deco, is_async in (("asynchronous-method", asynchronous, False), ("cache-method-sync", cache, False), ("cache-method-async", cache, True), ("cache(limit)-method", lambda f: cache(limit=3)(f), False)):
         if is_async:
